@@ -37,7 +37,7 @@ m = {
     ],
     "checks": checks,
     "not_applicable": na,
-    "notes": "fix: commits in /repo: 238c062 (C08), 2ca69b9 (C10), 62b81db (C12), ab5626a (C09), a0c5537 (C19). Known findings: /verif/known_findings.json.",
+    "notes": "fix: commits in /repo: 238c062 (C08), 2ca69b9 (C10), 62b81db (C12), ab5626a (C09), a0c5537 (C19), cbc6576 (C03, concurrent last drops). Known findings: /verif/known_findings.json.",
 }
 json.dump(m, open(os.path.join(HERE, "MANIFEST.json"), "w"), indent=1)
 print("MANIFEST.json: %d checks, %d not_applicable" % (len(checks), len(na)))
